@@ -461,14 +461,15 @@ struct DRev {
     #[tuple_key(2)]
     #[reverse]
     a: u32,
-    #[tuple_key(8)]
+    // the two attributes in the other order: the direction must not depend on it
     #[reverse]
+    #[tuple_key(8)]
     b: u64,
     #[tuple_key(1024)]
     #[reverse]
     c: i32,
-    #[tuple_key(20000)]
     #[reverse]
+    #[tuple_key(20000)]
     d: i64,
     #[tuple_key(536870911)]
     #[reverse]
